@@ -25,6 +25,9 @@ RICH_TOP = [
     ".üñí-çødé::after { content: \"日本語 ✓\" } /* ünï */", "a[href^=\"http://\"]:not(.x)::before, b > i ~ u + s { outline: 0 }",
     ".calc { width: calc(100% - (2 * var(--gap, 4px))); grid-template-areas: \"a b\" \"c d\" }", ".big { margin: 1e3px -0.5E-2em +.5px 010px }",
     "@media screen { @media (min-width: 1px) { /* deep */ .deep-plain { margin: 0 } } }", ".u { unicode-range: U+0025-00FF, u+4?? }",
+    # code points that str.splitlines() / some editors treat as line breaks but CSS does not (they are ordinary content)
+    "/* licence\u2028second line\u2029third\u0085fourth \u001c\u001d\u001e\u000b end */",
+    ".sep::before { content: \"a\u2028b\u0085c\u2029d\u001ce\"; quotes: '\u0085' '\u2028' }", ".sep\u0085x, .p\u2028q { margin: 0 }",
 ]
 VENDOR_HACKS = ["*zoom: 1", "_height: 1px", "*display: inline"]
 
